@@ -261,6 +261,14 @@ template <class T> static void enumcon (uint64_t seed, int samples)
         for (int i = 0; i < 3; ++i) p[i] = rng.range (-3, 5);
         conq<T> (mn.data (), mx.data (), p);
     }
+    // boxes of odd and even extents anywhere in -7..9 with interior points at every offset (the nearest face is decided by
+    // comparing distances, so no rounding of a centre may enter), plus points outside
+    for (int s = 0; s < samples; ++s)
+    {
+        int mn[3], mx[3], p[3];
+        for (int i = 0; i < 3; ++i) { mn[i] = rng.range (-7, 5); mx[i] = mn[i] + rng.range (0, 9); p[i] = (s % 4 == 3) ? rng.range (-9, 16) : rng.range (mn[i], mx[i]); }
+        conq<T> (mn, mx, p);
+    }
     // the canonical empty box returns p itself
     int emn[3] = {1000, 1000, 1000}, emx[3] = {-1000, -1000, -1000}, p[3] = {1, -2, 3};
     conq<T> (emn, emx, p);
